@@ -22,7 +22,7 @@ EXPLANATION = (
     "time_limit + 1); (R4) observation leaves whose value is a literal (jnp.array(c), zeros, ones, full) lie inside the "
     "spec's literal bounds and have the spec's dtype category; (R5) the extent used in the bound of a coordinate field "
     "is the extent of the axis that field indexes (non-square grids; shared engine with C07); (R6) leaves that are a "
-    "direct jax.random.uniform/randint draw lie inside the declared literal box. Not decided: dtypes and bounds of "
+    "direct jax.random.uniform/randint draw lie inside the declared literal box; (R7) where the dtype category (bool / int / float) of a reward or observation leaf follows from literals, explicit dtype arguments and JAX promotion, it equals the category declared by the spec. Not decided: dtypes and bounds of "
     "computed arrays (needs numeric abstract interpretation of JAX); that step accepts action_spec.generate_value() "
     "(behavioural; its spec side is C16.R5).")
 
@@ -242,6 +242,59 @@ def check(tier: str) -> Result:
                                 bad = (l is not None and lo is not None and l < lo) or (h is not None and hi is not None and h > hi)
                                 res.add("C01.R6", s2, f2, f"sampled Observation.{path} ({kind} in [{l}, {h}]) within the declared box", (not bad) if decided else None,
                                         f"declared [{lo}, {hi}]", nontrivial=decided)
+    # ---------------------------------------------------------------- R7 dtype categories of rewards and observation leaves
+    from ..dtypes import cat_of_dtype, dtype_cat as infer_cat
+    from .common import step_types
+    n_dt = 0
+    for ea in analyses(tree):
+        vfg = ea.vfg
+        env = short(ea.cls.qual)
+        rs = spec_args(vfg.mk_attr(ea.self_t, "reward_spec"))
+        want = cat_of_dtype(rs[1].get("dtype")) if rs else None
+        site, fn = env_site(ea, "step")
+        seen_r = set()
+        for l, _ in leaves(ea.step_ts):
+            if l.kind != "construct":
+                continue
+            rw = vfg.mk_attr(l, "reward")
+            for alt in (rw.args[0] if rw.kind == "phi" else (rw,)):
+                if alt.id in seen_r:
+                    continue
+                seen_r.add(alt.id)
+                c = infer_cat(alt)
+                if c is None or want is None:
+                    continue
+                n_dt += 1
+                res.add("C01.R7", site, fn, f"reward has the dtype category of reward_spec ({want})", c == want,
+                        f"reward {txt(alt, 4, 110)} is {c}" + ("" if c == want else f": reward_spec.validate rejects it (declared {want})"))
+        spec = vfg.mk_attr(ea.self_t, "observation_spec")
+        sp: Dict[str, List[T]] = {}
+        for p_, leaf in spec_paths(vfg, spec):
+            sp.setdefault(p_, []).append(leaf)
+        for which, ts in (("reset", ea.reset_ts), ("step", ea.step_ts)):
+            s2, f2 = env_site(ea, which)
+            for o in observation_leaves(ea, ts):
+                if o.kind != "construct":
+                    continue
+                for path, val in flat_fields(vfg, o):
+                    for alt in (val.args[0] if val.kind == "phi" else (val,)):
+                        c = infer_cat(alt)
+                        if c is None:
+                            continue
+                        for leaf in sp.get(path, []):
+                            info = spec_args(leaf)
+                            if info is None:
+                                continue
+                            w = cat_of_dtype(info[1].get("dtype"))
+                            if w is None and info[0] in ("DiscreteArray", "MultiDiscreteArray") and "dtype" not in info[1]:
+                                w = "int"
+                            if w is None:
+                                continue
+                            if len(sp.get(path, [])) > 1 and c != w:
+                                continue  # alternative specs (python-level configuration): pairing unknown
+                            n_dt += 1
+                            res.add("C01.R7", s2, f2, f"Observation.{path} has the declared dtype category ({w})", c == w,
+                                    f"value {txt(alt, 3, 90)} is {c}" + ("" if c == w else f": the spec declares {w}"))
     # ---------------------------------------------------------------- R2 (shared with C03)
     from . import c03
     r3 = c03.check(tier)
@@ -251,7 +304,7 @@ def check(tier: str) -> Result:
     # ---------------------------------------------------------------- R5
     n_axis = axis_rules.add_obligations(res, tree, "C01.R5", scope="spec")
     res.analysed = {"environments": len(analyses(tree)), "nested_spec_nodes": n_specs, "observation_leaves": n_leaves,
-                    "literal_leaves_compared": n_lit, "sampled_leaves_compared": n_samp, "axis_bound_sites": n_axis}
+                    "literal_leaves_compared": n_lit, "sampled_leaves_compared": n_samp, "axis_bound_sites": n_axis, "dtype_categories_compared": n_dt}
     if n_specs < 31:
         raise AnalysisError(f"only {n_specs} specs.Spec nodes analysed (hand-confirmed minimum 31: 23 top-level + 8 nested)")
     res.assumptions = ["Spec.validate / generate_value map children by keyword onto the constructor (jumanji/specs.py, checked by C16.R5)",
